@@ -20,10 +20,31 @@ func v8(v uint64) []int {
 	return B(b[:])
 }
 
+// varintBigEvent: a body of hundreds of kilobytes (the trace carries its length and the verdict of a byte comparison
+// with the reference encoding, not the bytes)
+func varintBigEvent(n int) ev {
+	s := make([]byte, n)
+	for i := range s {
+		s[i] = byte(i*31 + i>>8)
+	}
+	e := ev{"op": "BigBytes", "n": n, "enc_ok": false, "dec_ok": false}
+	e["panic"] = guard(func() {
+		want := append(quicwireRefVarint(uint64(n)), s...)
+		got := quicwire.AppendVarintBytes(nil, s)
+		roomy := quicwire.AppendVarintBytes(make([]byte, 0, n+16), s)
+		e["enc_ok"] = bytes.Equal(got, want) && bytes.Equal(roomy, want)
+		back, k := quicwire.ConsumeVarintBytes(want)
+		e["dec_ok"] = k == len(want) && bytes.Equal(back, s)
+	})
+	return e
+}
+
 func execVarint(c *ctx, in ev) []ev {
 	switch gS(in, "op") {
 	case "Val":
 		return []ev{varintValEvent(binary.BigEndian.Uint64(gB(in, "v")), gB(in, "prefix"))}
+	case "BigBytes":
+		return []ev{varintBigEvent(gI(in, "n"))}
 	case "In":
 		return []ev{varintInEvent(gB(in, "b"))}
 	case "Bytes":
@@ -147,14 +168,18 @@ func varintBytesEvent(prefix, s []byte) ev {
 	var out []byte
 	e["avb_panic"] = guard(func() { out = quicwire.AppendVarintBytes(dst, s) })
 	e["avb_out"] = B(out)
-	// ... and into a destination with room for everything (the encoder works in place there)
-	{
-		roomy := make([]byte, len(prefix), len(prefix)+len(s)+24)
+	// ... and into destinations with room for everything (the encoder works in place there), with EXACTLY the room the
+	// encoding needs, with one byte less, and with room for the body plus a one-byte length only
+	for _, spare := range []int{len(s) + 24, len(quicwireRefVarint(uint64(len(s)))) + len(s), len(quicwireRefVarint(uint64(len(s)))) + len(s) - 1, len(s) + 1} {
+		if spare < 0 {
+			continue
+		}
+		roomy := make([]byte, len(prefix), len(prefix)+spare)
 		copy(roomy, prefix)
 		var got []byte
 		p := guard(func() { got = quicwire.AppendVarintBytes(roomy, s) })
 		if p != "" || !bytes.Equal(got, out) {
-			e["avb_panic"] = fmt.Sprintf("in a roomy destination the result differs (%s)", p)
+			e["avb_panic"] = fmt.Sprintf("in a destination with %d spare bytes the result differs (%s)", spare, p)
 		}
 	}
 	var back []byte
@@ -304,6 +329,9 @@ func genVarint(c *ctx, emit func(ev)) {
 		}
 	}
 
+	for _, n := range []int{1<<16 - 1, 1 << 16, 300000, 1 << 19, 1<<19 + 7, 1 << 20, 3<<20 + 1} {
+		emit(ev{"op": "BigBytes", "n": n})
+	}
 	// length-prefixed strings ------------------------------------------
 	lens := []int{0, 1, 2, 62, 63, 64, 65, 254, 255, 256, 257, 1000}
 	if c.thorough() {
